@@ -396,7 +396,8 @@ def ffsp_records(entry, policy, env, td0, mode, label, seed):
     return recs
 
 
-def records(tier, seed):
+def records(tier, seed, only=None, only_modes=None, extras=True):
+    """only: set of (policy name, env name) to restrict the matrix; only_modes: predicate on the mode name"""
     from rl4co.envs import get_env
 
     rnd = random.Random(seed)
@@ -404,6 +405,10 @@ def records(tier, seed):
     recs = []
     for entry in policies(tier):
         pname, ename = entry["name"], entry["env"]
+        if only is not None and (pname, ename) not in only:
+            continue
+        if only_modes is not None:
+            entry = dict(entry, modes=tuple(m for m in entry["modes"] if only_modes(m)))
         try:
             env = get_env(ename, generator_params=dict(entry["gp"]))
             policy = entry["mk"]().eval()
@@ -507,7 +512,8 @@ def records(tier, seed):
                     "reward": u(out["reward"][r]),
                     "eval_reward": u(ev["reward"][r]) if ev is not None else 0,
                 })
-    recs += irrelevant_step_records(seed)
+    if extras:
+        recs += irrelevant_step_records(seed)
     return recs
 
 
